@@ -55,8 +55,25 @@ def _case(draw):
             "deferred": draw(st.sampled_from([None, None, "grow"]))}
 
 
+@st.composite
+def _cbin_rate_case(draw):
+    """A compressed stream whose header (.ch) carries the NOMINAL sampling rate (what `mtscomp x.bin -s 30000` stores)
+    while the metadata carries the measured one, long enough for the two clocks to differ by more than half a sample,
+    and holding fewer / more samples than announced."""
+    if draw(st.booleans()):
+        spec = draw(gm.st_nidq(ns_range=(1, 1)))
+    else:
+        spec = draw(gm.st_spec(n_choices=(1, 2), ns_range=(1, 1), allow_nosync=True, patterns=("dense",), allow_lf=False))
+    spec["fs"] = 30003.0003
+    ns_file = draw(st.integers(5100, 7000))
+    spec["ns"] = ns_file + draw(st.sampled_from([-50, 0, 100, 1]))
+    return {"spec": spec, "ns_file": ns_file, "reader": "offline", "content_seed": draw(st.integers(0, 2 ** 31)),
+            "pick": [draw(st.integers(0, 10 ** 6)), 0], "cbin": True, "chunk": 1000, "quiet": draw(st.booleans()),
+            "deferred": None, "ch_rate": 30000.0}
+
+
 def strategy(tier):
-    return _case()
+    return st.one_of(*([_case()] * 9 + [_cbin_rate_case()]))
 
 
 def _lengths(frame, ns_file, pick):
@@ -184,10 +201,15 @@ def _run_cbin(case, ctx, sg, d, binf, spec, D, nc, fs):
     ctx.label("cbin_short")
     ctx.stat("truncation_points_max", ns_file)
     meta_text = binf.with_suffix(".meta").read_text()
-    for k in range(ns_file, 0, -1):
+    ch_rate = case.get("ch_rate") or fs
+    ks = range(ns_file, 0, -1)
+    if case.get("ch_rate"):
+        ctx.label("cbin_header_nominal_rate")
+        ks = sorted({ns_file, ns_file - 13, 5050 + case["pick"][0] % 40}, reverse=True)
+    for k in ks:
         sub = d / f"k{k}"
         b = rec.write_recording(sub, spec, D[:k], meta_text=meta_text)
-        cb = rec.compress(b, nc, fs, case["chunk"], keep_bin=False)
+        cb = rec.compress(b, nc, ch_rate, case["chunk"], keep_bin=False)
         if k != spec["ns"]:
             ctx.nontrivial = True
         sr = ctx.call("C11.open_cbin", sg.Reader, cb, sort=False, ignore_warnings=bool(case.get("quiet")))
